@@ -61,8 +61,10 @@ def nameLt : List Nat → List Nat → Bool
 /-- TupleOrderedNames / attrs.GetSorted -/
 def sortNames (ns : List (List Nat)) : List (List Nat) := ns.mergeSort (fun a b => !nameLt b a)
 
-/-- names without the wildcard marker `*` (its own class, see the corpus) -/
-def plainNames (ns : List (List Nat)) : List (List Nat) := ns.filter (· != [42])
+/-- names without the wildcard marker `*` and without an `x` / `&x` pair (their own classes, see the corpus) -/
+def plainNames (ns : List (List Nat)) : List (List Nat) :=
+  let ns := ns.filter (· != [42])
+  ns.filter (fun n => !(n.head? == some 38 && ns.contains (n.drop 1)))
 
 /-! ## numbers under the 15-character guard -/
 def genInt : Gen Int := do
@@ -337,6 +339,9 @@ def corpus : List Case :=
     readerCase "C12-corpus-15" [92, 52, 48, 48] 34,
     rtCase "C12-corpus-34" "corpus" (.tup [([42], .num 1)]),                 -- //tuple({'*': 1})
     rtCase "C12-corpus-35" "corpus" (.rel [[42], [97]] [[.num 1, .num 2], [.num 3, .num 4]]),
+    -- a tuple with both x and &x: kept by a literal, stripped by TupleExpr.Eval when some value is not a literal
+    rtCase "C12-corpus-42" "corpus" (.tup [([], .num 1), ([38], .bytes 0 [97])]),
+    rtCase "C12-corpus-43" "corpus" (.tup [([38, 97], .num (-1)), ([97], .num 2)]),
     -- probes that hold
     rtCase "C12-corpus-16" "corpus" (.arr (-1) [some (.num (-1)), none, some (.num (-1234567))]),
     rtCase "C12-corpus-17" "corpus" (.str (-1234567) [39, 34, 92, 127, 0, 0x1F600]),
